@@ -249,8 +249,21 @@ pub fn c07_step(sys: &Sys, ev0: usize, ctx: &mut Ctx) {
                 }
             }
             // in watch mode a dependent may legitimately start on the acknowledgement of an earlier
-            // successful execution that is still in flight when the dependency fails again
-            Ev::Spawn { .. } if cfg.watch => {}
+            // successful execution that is still in flight when the dependency fails again; but once the
+            // system has been message-quiescent after the failure, the out-of-date notice has reached
+            // every dependent: none of them may start any more
+            Ev::Spawn { t, .. } if cfg.watch => {
+                for d in cfg.deps_star(t) {
+                    let failed_at = before.iter().rposition(|e| matches!(e, Ev::Finish { t: x, code, .. } if x == &d && *code != 0) || matches!(e, Ev::SpawnFail { t: x } if x == &d));
+                    let ok_since = |from: usize| before[from..].iter().any(|e| matches!(e, Ev::Finish { t: x, code: 0, .. } if x == &d) || matches!(e, Ev::Spawn { t: x, service: true, .. } if x == &d));
+                    if let Some(f) = failed_at {
+                        ctx.count("watch: starts below a target whose last execution failed");
+                        if !ok_since(f) && sys.quiescent_at > f {
+                            ctx.violation(format!("dependent-started-after-the-failure-had-propagated:{:?}<-{:?}", cfg.spec(t).kind, cfg.spec(&d).kind), format!("{} started although {} (in its dependency closure) failed, did not succeed since, and every message had been delivered in between", t, d));
+                        }
+                    }
+                }
+            }
             Ev::Spawn { t, .. } => {
                 for d in cfg.deps_star(t) {
                     // failed and not since succeeded
@@ -613,11 +626,13 @@ pub fn sweep(cfgs: Vec<Cfg>, checks: &(dyn Fn(&Cfg) -> Checks + Sync), deadline:
     // phase 1: every configuration on one thread each, in parallel, with a small state cap;
     // phase 2: the configurations that hit that cap are redone from scratch with all threads inside.
     let small_cap = 40_000u64.min(max_states);
-    let mut results: Vec<(String, Stats)> = if cfgs.len() >= 4 { par_map(&cfgs, threads, |c| run(c, 1, small_cap)) } else { cfgs.iter().map(|c| run(c, threads, max_states)).collect() };
+    // explorations on real files are latency-bound (blocking-pool hops), not CPU-bound: oversubscribe
+    let inner_threads = |c: &Cfg| if c.real_incremental { threads * 3 } else { threads };
+    let mut results: Vec<(String, Stats)> = if cfgs.len() >= 4 { par_map(&cfgs, threads, |c| run(c, 1, small_cap)) } else { cfgs.iter().map(|c| run(c, inner_threads(c), max_states)).collect() };
     if cfgs.len() >= 4 {
         for (i, c) in cfgs.iter().enumerate() {
             if results[i].1.capped && !deadline.map(|d| Instant::now() > d).unwrap_or(false) {
-                results[i] = run(c, threads, max_states);
+                results[i] = run(c, inner_threads(c), max_states);
             }
         }
     }
@@ -924,6 +939,32 @@ pub fn check_c07(rep: &mut Report) {
     }
     let out = sweep(v, &mk, dl, 3_000_000);
     fill_report(rep, &out, "watch: every build may fail / one leaf cannot be launched, one later notification");
+    // watch, three-target chains: the bottom is rebuilt and may fail, then the top's own input changes
+    let mut v = vec![];
+    for kinds in [[Kind::B, Kind::S, Kind::B], [Kind::B, Kind::A, Kind::B], [Kind::B, Kind::B, Kind::B], [Kind::S, Kind::S, Kind::B], [Kind::S, Kind::B, Kind::B], [Kind::S, Kind::A, Kind::B]] {
+        let mut c = cfg("watch-chain", vec![t("top", kinds[0], &["mid"]), t("mid", kinds[1], &["base"]), t("base", kinds[2], &[])], &["top"]);
+        c.watch = true;
+        c.notify_budget = 2;
+        c.targets[0].has_input = true;
+        c.targets[2].has_input = true;
+        c.may_fail = vec!["base".into()];
+        v.push(c);
+    }
+    let out = sweep(v, &mk, dl, 3_000_000);
+    fill_report(rep, &out, "watch: chains top->mid->base (mid a service, aggregate or build), base may fail on its re-run, two notifications (base's and top's inputs)");
+    // a failing script may also die of a signal
+    let mut v = vec![];
+    for c in small_cfgs(2, 1) {
+        if builds(&c).is_empty() {
+            continue;
+        }
+        let mut f = c.clone();
+        f.may_fail = builds(&c);
+        f.fail_by_signal = true;
+        v.push(f);
+    }
+    let out = sweep(v, &mk, dl, 3_000_000);
+    fill_report(rep, &out, "one-shot: graphs <=2 targets, a failing script is killed by a signal instead of exiting non-zero");
     finalize(rep);
 }
 
@@ -996,7 +1037,7 @@ pub fn check_c10(rep: &mut Report) {
     fill_report(rep, &out, "exact: failure exit path (every build may fail / a leaf cannot be launched), restricted afterwards");
     // three targets, reduced mode (relay eager), signal at every state
     let mut v = vec![];
-    let three: Vec<Cfg> = if rep.thorough() { shape_cfgs(3, 2).into_iter().filter(distinct_roots).collect() } else { shape_cfgs(3, 1).into_iter().step_by(3).collect() };
+    let three: Vec<Cfg> = if rep.thorough() { shape_cfgs(3, 2).into_iter().filter(distinct_roots).collect() } else { shape_cfgs(3, 1).into_iter().step_by(5).collect() };
     for c in three {
         let mut e = c.clone();
         e.sigterm = true;
@@ -1004,7 +1045,7 @@ pub fn check_c10(rep: &mut Report) {
         v.push(e);
     }
     let out = sweep(v, &mk, dl, 3_000_000);
-    fill_report(rep, &out, "reduced: graphs with 3 targets (quick: every third shape, single root), signal injected at every state, restricted afterwards");
+    fill_report(rep, &out, "reduced: graphs with 3 targets (quick: every fifth shape, single root), signal injected at every state, restricted afterwards");
     let mut v = vec![];
     for c in named4_for(false).into_iter().filter(|c| rep.thorough() || ["agg-over-B+S", "nested-aggregates", "B-S-B-chain", "dep-before-dependent"].contains(&c.name.as_str())) {
         let mut e = c.clone();
@@ -1025,6 +1066,7 @@ pub fn check_c10(rep: &mut Report) {
     }
     let out = sweep(v, &mk, dl, 5_000_000);
     fill_report(rep, &out, "reduced: named 4-target shapes with signal (thorough: + exact fan-out 3,4 at capacity 2)");
+    check_phases(rep, "real incremental runner, every phase of the build cycle a parking point: signal / sibling failure at every state", true);
     finalize(rep);
 }
 
@@ -1329,4 +1371,98 @@ pub fn check_c06(rep: &mut Report) {
     finalize(rep);
     rep.assumptions.push("script effect: reads its inputs when it starts, writes its output when it ends".into());
     rep.assumptions.push("which targets a file belongs to is decided by the reference predicate checked against the real watcher in C16".into());
+}
+
+// ---------------------------------------------------------------------------------------
+// termination / failure while the incremental run is outside its script phase (C10, C05)
+
+/// configurations with the real incremental runner, every named point armed, a signal at every state
+pub fn phase_cfgs(thorough: bool) -> Vec<Cfg> {
+    use zinoma::verif::points::*;
+    let all_points = |t: &str| -> Vec<(String, u8)> { [DECIDED, DELETED, SCRIPT_DONE, STATE_COMPUTED, SAVED].iter().map(|p| (t.to_string(), *p)).collect() };
+    let mk = |name: &str, files: &[&str], targets: Vec<TSpec>, roots: &[&str]| {
+        let mut c = cfg(name, targets, roots);
+        c.files = files.iter().map(|s| s.to_string()).collect();
+        c.real_incremental = true;
+        c
+    };
+    let mut v = vec![];
+    // (1) one build, one-shot, signal anywhere
+    let mut c = mk("phases: one build, signal at every state", &["in_t.txt", "out_t.txt"], vec![rf("t", Kind::B, &[], &[0], &[], Some(1))], &["t"]);
+    c.armed = all_points("t");
+    c.sigterm = true;
+    c.freeze_after_exit_begins = true;
+    v.push(c);
+    // (2) failure exit path: a sibling fails while t is somewhere in its cycle
+    let mut c = mk("phases: one build + a failing sibling", &["in_t.txt", "out_t.txt", "in_bad.txt", "out_bad.txt"], vec![t("all", Kind::A, &["t", "bad"]), rf("t", Kind::B, &[], &[0], &[], Some(1)), rf("bad", Kind::B, &[], &[2], &[], Some(3))], &["all"]);
+    c.armed = all_points("t");
+    c.must_fail = vec!["bad".into()];
+    c.freeze_after_exit_begins = true;
+    v.push(c);
+    // (3) watch mode, one change, signal anywhere
+    let mut c = mk("phases: one build, watch, one change, signal at every state", &["in_t.txt", "out_t.txt"], vec![rf("t", Kind::B, &[], &[0], &[], Some(1))], &["t"]);
+    c.watch = true;
+    c.change_budget = 1;
+    c.armed = if thorough { all_points("t") } else { vec![("t".into(), SCRIPT_DONE), ("t".into(), STATE_COMPUTED)] };
+    c.sigterm = true;
+    c.freeze_after_exit_begins = true;
+    v.push(c);
+    // (4) dependent builds: signal while the second decides / records
+    if thorough {
+        let mut c = mk("phases: producer->consumer, signal at every state", &["in_p.txt", "out_p.txt", "in_c.txt", "out_c.txt"], vec![rf("c", Kind::B, &[], &[2], &["p"], Some(3)), rf("p", Kind::B, &[], &[0], &[], Some(1))], &["c"]);
+        c.armed = vec![("c".into(), DECIDED), ("c".into(), SCRIPT_DONE), ("p".into(), SCRIPT_DONE)];
+        c.sigterm = true;
+        c.freeze_after_exit_begins = true;
+        v.push(c);
+    }
+    v
+}
+
+/// C05 (signal part): a record exists and decodes only if the target's last cycle ran its script to a zero exit
+pub fn c05_step(sys: &Sys, _ev0: usize, ctx: &mut Ctx) {
+    let cfg = &sys.cfg;
+    if !cfg.real_incremental {
+        return;
+    }
+    let dir = match &sys.scratch {
+        Some(d) => d.clone(),
+        None => return,
+    };
+    for t in cfg.targets.iter().filter(|t| t.kind == Kind::B) {
+        let rec = dir.join(".zinoma").join(format!("{}.checksums", t.name));
+        if !rec.is_file() {
+            continue;
+        }
+        ctx.count("states with a record on disk");
+        let last = sys.children().into_iter().filter(|c| c.target == t.name).last();
+        let fine = matches!(last, Some(ref c) if c.status == Some(0) && !c.killed);
+        if !fine {
+            let how = match last {
+                None => "no script ever ran".to_string(),
+                Some(c) => format!("last script status {:?}, killed {}", c.status, c.killed),
+            };
+            ctx.violation(format!("record-on-disk-although-last-cycle-did-not-succeed: {}", if how.contains("killed true") { "script was cancelled" } else { "script failed or never ran" }), format!("{}: {} exists but {}\nhistory: {:?}", cfg.name, rec.display(), how, sys.hist(&t.name)));
+        }
+    }
+}
+
+/// `prompt_exit`: also apply C10's terminal oracle (C10's own run); C05 only looks at the record
+pub fn check_phases(rep: &mut Report, label: &str, prompt_exit: bool) {
+    let mk = move |_: &Cfg| Checks {
+        step: Box::new(move |s, e, c| {
+            if prompt_exit {
+                c10_step(s, e, c);
+            }
+            c05_step(s, e, c)
+        }),
+        terminal: Box::new(move |s, c| {
+            if prompt_exit {
+                c10_terminal(s, c);
+            }
+            observation(s)
+        }),
+    };
+    let dl = deadline(rep, 150, 3000);
+    let out = sweep(phase_cfgs(rep.thorough()), &mk, dl, 2_000_000);
+    fill_report(rep, &out, label);
 }
